@@ -473,7 +473,10 @@ class NumericValue(Value):
 
         data = INT_REGEX.match(value)
         if data:
-            self.int = int(data.group("value"), 10)
+            digits = data.group("value").lstrip("0") or "0"
+            if len(digits) > 5:
+                raise ValueTypeError("integer value cannot exceed 65535")
+            self.int = int(digits, 10)
             if self.int > 65535:
                 raise ValueTypeError("integer value cannot exceed 65535")
             self.post_init_direct_check()
@@ -481,7 +484,10 @@ class NumericValue(Value):
 
         data = NEG_INT_REGEX.match(value)
         if data:
-            self.int = int(data.group("value"), 10)
+            digits = data.group("value").lstrip("0") or "0"
+            if len(digits) > 5:
+                raise ValueTypeError("integer value cannot be below -32768")
+            self.int = int(digits, 10)
             if self.int > 32768:
                 raise ValueTypeError("integer value cannot be below -32768")
             self.negative = True
